@@ -1571,9 +1571,48 @@ fn gen_c04_big_backlog(rng: &mut Rng) -> Value {
     })
 }
 
+/// Very many flush requests outstanding at once: the writer is stuck inside the first entry's `next`, a thread issues
+/// 1 030 - 3 000 requests without waiting for any (futures dropped or held), then waits for one. None may complete
+/// while the entries appended before it are still queued.
+fn gen_c04_many_requests(rng: &mut Rng) -> Value {
+    let n = 2 + rng.below(5);
+    let f = 1_030 + rng.below(2_000);
+    let mut ops = vec![json!({"op":"append","n":n})];
+    for _ in 0..f {
+        ops.push(json!({"op":"flush","mode": *rng.pick(&["cancel", "hold", "hold"])}));
+    }
+    ops.push(json!({"op":"flush","mode":"await"}));
+    let sched = gen_sched(rng, &SchedOpts { est_choices: 200 + f * 6, threads: 3, jump_max_ns: 0, stall_clock_max_ns: 0, max_steps: 400_000 });
+    json!({
+        "scenario": "queue_flush_barrier",
+        "sched": sched,
+        "boxed": rng.chance(0.5),
+        "capacity": 64,
+        "flush_interval_ns": *rng.pick(&[1_000_000u64, 1_000_000_000]),
+        "shutdown_timeout_ns": 1_000_000_000_000_000u64,
+        "recorder": false,
+        "next_cost_ns": 0,
+        "gate": 0,
+        "script": [],
+        "report_res": "O",
+        "flush_fail": [],
+        "producers": [ops],
+        "main_ops": [{"op":"wait_next_started","n":1}, {"op":"sleep","ns": 5_000_000_000u64}, {"op":"gate_open"}],
+        "pre_end": [{"op":"gate_open"}],
+        "end": "drop",
+        "end_before_join": false,
+        "post": [],
+        "sustained": false,
+        "many_requests": true,
+    })
+}
+
 pub fn gen_c04_safety(rng: &mut Rng, _tier: Tier) -> Value {
     if rng.chance(0.06) {
         return gen_c04_big_backlog(rng);
+    }
+    if rng.chance(0.004) {
+        return gen_c04_many_requests(rng);
     }
     let sustained = rng.chance(0.5);
     let cap = if sustained { 33 + rng.below(32) } else { 1 + rng.below(40) };
@@ -1724,6 +1763,7 @@ fn c04_probes(r: &mut Report, plan: &Value, run: &Option<QueueRun>) {
         }
         r.probe("flush_completed_with_queue_nonempty", countdown);
         r.probe("flush_completed_with_queue_drained", drained);
+        r.probe("over_1024_flush_requests_outstanding", jb(plan, "many_requests", false) as u64);
         r.probe("flush_first_poll_ready_after_shutdown", d.flush_done.iter().filter(|(fid, (_, fp))| *fp && d.drop_end.map(|(x, _)| d.flush_req[*fid] > x).unwrap_or(false)).count() as u64);
         let lost = d.entries.values().filter(|e| e.ret.is_some() && e.next_begin.is_empty()).count() as u64;
         r.fault("capacity_pressure", lost);
@@ -1751,13 +1791,13 @@ impl Scenario for QueueFlushBarrier {
         finish_report(r, out, run, plan, check_c04, false)
     }
     fn probes(&self) -> Vec<&'static str> {
-        vec!["flush_completed_with_queue_nonempty", "flush_completed_with_queue_drained", "flush_first_poll_ready_after_shutdown", "flush_requested_while_writer_parked", "flush_with_nonempty_queue"]
+        vec!["flush_completed_with_queue_nonempty", "flush_completed_with_queue_drained", "flush_first_poll_ready_after_shutdown", "flush_requested_while_writer_parked", "flush_with_nonempty_queue", "over_1024_flush_requests_outstanding"]
     }
     fn components(&self) -> Value {
         queue_components()
     }
     fn rule(&self) -> &'static str {
-        "each run: 1-3 flusher threads (append k, flush await/cancel) plus bulk or sustained-pressure producers, capacity 1-64 (half the runs >= 33 with a flush interval of 4-43 stream writes so that drains hit their deadline and the waker count-down path runs), gated or slow stream, overflow allowed, flush requests after shutdown. non-trivial = >= 2 threads and >= 1 preemption; distinct = distinct (context-switch signature, producer op lists)"
+        "each run: 1-3 flusher threads (append k, flush await/cancel) plus bulk or sustained-pressure producers, capacity 1-64 (half the runs >= 33 with a flush interval of 4-43 stream writes so that drains hit their deadline and the waker count-down path runs), gated or slow stream, overflow allowed, flush requests after shutdown; 6 % big backlogs (260-760 entries), 0.4 % 1030-3030 flush requests outstanding at once against a stuck writer. non-trivial = >= 2 threads and >= 1 preemption; distinct = distinct (context-switch signature, producer op lists)"
     }
 }
 
